@@ -5,13 +5,13 @@ sys.path.insert(0, os.path.dirname(os.path.dirname(os.path.abspath(__file__))))
 import units
 
 TEXT = {
- "C02": ("Unbounded Verus proof, on the real bodies extracted from /repo on every run, that the four IR assembly functions (SequenceOrSet::from x2, Choice::from, Enumerated::from) keep every parsed component exactly once and in source order (root ++ additions; COMPONENTS OF entries split off in order). Partial: parsing of the component lists, recursion marking and the emission of fields/variants are not under contract.", "DESIGN.md §4 C02"),
- "C03": ("Complete Kani proofs (loop-free, full scalar domain, run in place on the real crate) of the X.680 §31.2.7 combination rule `module default + tag keyword` (all 9 pairs), of the tag constructor AsnTag::from (4 class keywords x all u64 numbers x 3 keyword states) and of ModuleHeader::from's defaults. Narrow: where the rule is applied (apply_tagging_environment, nested types, element tags), TAGS-clause parsing and tag rendering are not under contract.", "DESIGN.md §4 C03"),
- "C04": ("Complete Kani proof over the full Option<i128>^4 x bool^4 x i128 domain that serial application of PER-visible range constraints (AddAssign) is exactly interval intersection with sticky extensibility and never excludes a value both constraints permit. Narrow: set-operation folding (union hull, EXCEPT, MIN/MAX), reference resolution and rendering are not under contract.", "DESIGN.md §4 C04"),
- "C05": ("Unbounded Verus proof that each assembled SEQUENCE/SET/CHOICE/ENUMERATED is extensible exactly when a marker was parsed and that the first-addition index equals the number of root members (so members after the marker, and only those, are additions); Kani proof of the header's extensibility default. The general index clause for root lists containing COMPONENTS OF fails and is a listed known finding. Partial: extension-group parsing and the index comparisons in the generator are not under contract.", "DESIGN.md §4 C05"),
- "C06": ("Unbounded deductive proof (Verus) that the two width-selection routines of the real code choose exactly the narrowest Rust integer type that holds [lo,hi], Integer when extensible or open-ended, and that both routines agree; complete Kani proof of IntegerType::max_restrictive over all 81 pairs. Partial: the fold that combines several constraints, literal tagging and rendering are not under contract.", "DESIGN.md §4 C06"),
- "C07": ("Complete Kani proofs in place: hex digit table for every char; octet->bits for every byte (MSB first, round trip); the well-known OID arc table row by row under every root; bits->octets for the stated bit-string lengths (bounded). Partial: literal parsing, named-bit lists, reference resolution and value rendering are not under contract.", "DESIGN.md §4 C07"),
- "C14": ("Unbounded Verus proof that assign_enumeral_numbers implements X.680 §20.3/§20.6 exactly (explicit numbers kept; identifier-only root items get the successive smallest unused non-negative integers; identifier-only additions the smallest value unused in the root and greater than all preceding additions) and a lemma that all numbers of a type are pairwise distinct when the written numbers are valid. Partial: the nom item parser, the zip back onto names, and discriminant rendering are not under contract.", "DESIGN.md §4 C14"),
+ "C02": ("Unbounded Verus proofs, on the real bodies extracted from /repo on every run: the four IR assembly functions keep every parsed component exactly once and in source order (root ++ additions; COMPONENTS OF split off in order); one component / alternative / SEQUENCE OF keeps name, tag, type and OPTIONAL/DEFAULT marking; Rasn::needs_unnesting hoists every anonymous constructed or decorated element type at any nesting depth. Emission of fields/variants, the component type table, default functions, recursion marking, the SEQUENCE parser and class-reference resolution are outside both verifiers and are covered only by bounded stand-ins (native execution of the same contract functions over stated finite domains), reported separately and never counted as proved.", "DESIGN.md §A, §4 C02"),
+ "C03": ("Complete Kani proofs (loop-free, full scalar domain, in place on the real crate) of the X.680 §31.2.7 combination rule (all 9 pairs), of AsnTag::from (4 class keywords x all u64 x 3 keyword states) and of ModuleHeader::from's defaults; Verus proofs that a component / alternative / SEQUENCE OF element keeps its tag as written. Where the rule is applied (apply_tagging_environment, now recursive after a fix), tag rendering, tagged CHOICE forced explicit, automatic_tags and class-reference resolution are covered only by bounded stand-ins. Known finding: SEQUENCE OF element tags are never rendered (pinned by a snapshot test).", "DESIGN.md §A, §4 C03"),
+ "C04": ("Complete Kani proof over the full Option<i128>^4 x bool^4 x i128 domain that serial application of PER-visible range constraints is exactly interval intersection with sticky extensibility; Verus proofs that constraint lists and the extensible flag of an element set are carried unchanged by the IR assembly. Set-expression folding (union hull, intersection, EXCEPT, MIN/MAX, outer marker), value-reference and named-number resolution and the emitted value/size annotations are covered only by bounded stand-ins; parser precedence, character ranges and ContainedSubtype are not covered.", "DESIGN.md §A, §4 C04"),
+ "C05": ("Unbounded Verus proof that each assembled SEQUENCE/SET/CHOICE/ENUMERATED is extensible exactly when a marker was parsed and that the first-addition index equals the number of root members; Kani proof of the header's extensibility default. The general index clause for root lists containing COMPONENTS OF fails and is a listed known finding. [[ ]] group parsing, extension_addition marks, non_exhaustive (incl. EXTENSIBILITY IMPLIED and nested types) are covered only by bounded stand-ins.", "DESIGN.md §A, §4 C05"),
+ "C06": ("Unbounded Verus proof that the two width-selection routines of the real code choose exactly the narrowest Rust integer type that holds [lo,hi], Integer when extensible or open-ended, and that both routines agree; complete Kani proof of IntegerType::max_restrictive over all 81 pairs. The fold over serial constraints (Integer::int_type; known finding) and the extensible flag handed to the component path are covered only by bounded stand-ins; literal tagging and rendering are not covered.", "DESIGN.md §A, §4 C06"),
+ "C07": ("Verus proof that octet strings of any length expand to their bits MSB first, 8 per octet, in order (incl. a bit-vector lemma for the bit positions); complete Kani proofs in place: hex digit table for every char, octet->bits for every byte with round trip, the well-known OID arc table row by row under every root; bits->octets for the stated bit-string lengths (bounded Kani). Named-bit lists and SEQUENCE/SET values with DEFAULTs are covered only by bounded stand-ins; literal parsing, reference resolution and value rendering are not covered.", "DESIGN.md §A, §4 C07"),
+ "C14": ("Unbounded Verus proof that assign_enumeral_numbers implements X.680 §20.3/§20.6 exactly (explicit numbers kept; identifier-only root items get the successive smallest unused non-negative integers; identifier-only additions the smallest value unused in the root and greater than all preceding additions) and a lemma that all numbers of a type are pairwise distinct when the written numbers are valid. The nom item parser with the zip back onto names, and discriminant / identifier emission are covered only by bounded stand-ins.", "DESIGN.md §A, §4 C14"),
 }
 NOTE = "Trusted: Verus/z3, Kani/CBMC/CaDiCaL, rustc; vstd specs; the assume_specification / external_body items listed per run in evidence.coverage.trusted_base (scanned mechanically); extraction rules D1-D6/S1 (diff: ./check <id> --show-diff); everything listed under coverage.unverified_mechanisms_of_this_property is outside the claim."
 NA = {
@@ -37,7 +37,7 @@ m = {
  "engines": [
    {"name": "verus-extract", "path": "/verif/vlib + /verif/contracts/*.vt", "serves_properties": ["C02", "C05", "C06", "C14"], "kind_free_text": "Verus on functions extracted mechanically from /repo on every run; contracts and ghost text spliced in"},
    {"name": "kani-in-place", "path": "/verif/hooks/*.rs", "serves_properties": ["C03", "C04", "C05", "C06", "C07"], "kind_free_text": "Kani harnesses compiled inside the real crate behind cfg(librasn_compiler_verif); the same contract functions re-run natively for counterexample replay"},
-   {"name": "native-replay", "path": "/verif/replay", "serves_properties": list(TEXT), "kind_free_text": "executable copies of the postconditions on the real crate; replay only, never decides"},
+   {"name": "native-replay", "path": "/verif/replay", "serves_properties": list(TEXT), "kind_free_text": "the contract functions of hooks/*.rs executed natively on the real crate: replay of counterexamples, fallback search for a failing input when a Verus unit is undecided, and the bounded stand-ins (labelled, never counted as proved)"},
  ],
  "checks": [], "not_applicable": [],
  "notes": "exit 2 (no VIOLATION line) = undecided: lost anchor, unsupported construct, solver limit, tool crash or ledger mismatch. Known findings: /verif/known_findings.txt.",
@@ -50,7 +50,7 @@ for pid in sorted(TEXT):
         "property_id": pid, "quick_cmd": f"./check {pid} --tier quick", "thorough_cmd": f"./check {pid} --tier thorough",
         "evidence_file": f"/verif/evidence/{pid}.json", "replay_cmd_template": "./check --replay {path}", "engine": "verus-extract" if cfg.get("verus") else "kani-in-place",
         "level_claimed": {"category": "proof", "text": text, "design_ref": ref}, "level_note": NOTE,
-        "technique": "contract-based deductive verification: " + backends,
+        "technique": "contract-based deductive verification: " + backends + ("; bounded native execution of the same contracts as labelled stand-in where no verifier reaches" if cfg.get("bounded_native") else ""),
     })
 for pid in sorted(NA):
     m["not_applicable"].append({"property_id": pid, "reason": NA[pid]})
